@@ -47,6 +47,8 @@ type Spec struct {
 	// Patches are textual mutations applied before rewriting (sensitivity mutants): file (relative)
 	// -> list of [old,new] pairs; each old must occur exactly once.
 	Patches map[string][][2]string
+	// EncSeam adds the build-configuration seam of the compression back ends (see encSeam).
+	EncSeam bool
 }
 
 // Result describes what was rewritten.
@@ -160,6 +162,11 @@ func Run(spec Spec, outDir string) (*Result, error) {
 		overlay[filepath.Join(spec.Repo, relFile)] = dst
 		res.Files = append(res.Files, relFile)
 	}
+	if spec.EncSeam {
+		if err := encSeam(spec, outDir, overlay, res); err != nil {
+			return nil, err
+		}
+	}
 	js, _ := json.MarshalIndent(map[string]any{"Replace": overlay}, "", " ")
 	res.OverlayPath = filepath.Join(outDir, "overlay.json")
 	if err := os.WriteFile(res.OverlayPath, js, 0o644); err != nil {
@@ -265,4 +272,178 @@ func addImport(f *ast.File, p string) {
 		f.Imports = append(f.Imports, spec)
 		return
 	}
+}
+
+// encSeam makes the choice between the cgo and the pure-Go compression back ends - in the shipped
+// code a build-time choice (build tags cgo / goprobe_noliblz4 / goprobe_nolibzstd) - a run-time
+// choice of the simulator, so that a "restart" can come back as a differently built binary over
+// the same disk image. For each of lz4 and zstd the files <x>.go and <x>_native.go of the current
+// tree are copied into the same package with the build constraint removed and the identifiers
+// Encoder / New / Option / WithCompressionLevel renamed to Native*; encoder.New is redirected to
+// a factory that consults two switches (off = the cgo back ends, as shipped). All code that
+// differs between the four build configurations is in these files, and all of it is compiled in.
+func encSeam(spec Spec, outDir string, overlay map[string]string, res *Result) error {
+	rename := map[string]string{"Encoder": "NativeEncoder", "New": "NewNative", "Option": "NativeOption", "WithCompressionLevel": "WithNativeCompressionLevel"}
+	for _, x := range []string{"lz4", "zstd"} {
+		dir := filepath.Join("pkg/goDB/encoder", x)
+		for i, name := range []string{x + ".go", x + "_native.go"} {
+			relFile := filepath.Join(dir, name)
+			src, err := os.ReadFile(filepath.Join(spec.Repo, relFile))
+			if err != nil {
+				return err
+			}
+			for _, pr := range spec.Patches[relFile] {
+				if bytes.Count(src, []byte(pr[0])) != 1 {
+					return fmt.Errorf("patch for %s: pattern occurs %d times: %q", relFile, bytes.Count(src, []byte(pr[0])), pr[0])
+				}
+				src = bytes.Replace(src, []byte(pr[0]), []byte(pr[1]), 1)
+			}
+			out, err := nativeCopy(relFile, src, rename, i == 0)
+			if err != nil {
+				return err
+			}
+			gen := filepath.Join(dir, fmt.Sprintf("zz_verif_native_%d.go", i))
+			dst := filepath.Join(outDir, strings.ReplaceAll(gen, "/", "__"))
+			if err := os.WriteFile(dst, out, 0o644); err != nil {
+				return err
+			}
+			overlay[filepath.Join(spec.Repo, gen)] = dst
+			res.Files = append(res.Files, gen+" (generated from "+name+")")
+		}
+	}
+	// the factory
+	relFile := "pkg/goDB/encoder/encoder.go"
+	full := filepath.Join(spec.Repo, relFile)
+	src, err := os.ReadFile(full)
+	if err != nil {
+		return err
+	}
+	if prev, ok := overlay[full]; ok { // already patched by a mutant
+		if src, err = os.ReadFile(prev); err != nil {
+			return err
+		}
+	}
+	n := 0
+	for _, x := range []string{"lz4", "zstd"} {
+		call := x + ".New()"
+		n += bytes.Count(src, []byte(call))
+		src = bytes.ReplaceAll(src, []byte(call), []byte("verifNew_"+x+"("+x+".New)"))
+	}
+	if n != 2 {
+		return fmt.Errorf("encoder seam: expected one lz4.New() and one zstd.New() in %s, found %d construction sites", relFile, n)
+	}
+	dst := filepath.Join(outDir, strings.ReplaceAll(relFile, "/", "__"))
+	if err := os.WriteFile(dst, src, 0o644); err != nil {
+		return err
+	}
+	overlay[full] = dst
+	res.Files = append(res.Files, relFile)
+	factory := `package encoder
+
+import (
+	"github.com/els0r/goProbe/v4/pkg/goDB/encoder/lz4"
+	"github.com/els0r/goProbe/v4/pkg/goDB/encoder/zstd"
+)
+
+// VerifLZ4Native / VerifZSTDNative select the pure-Go back end for newly created encoders
+// (simulated build configuration; both off = cgo build, as shipped).
+var VerifLZ4Native, VerifZSTDNative bool
+
+func verifNew_lz4(shipped func(...lz4.Option) *lz4.Encoder) Encoder {
+	if VerifLZ4Native {
+		return lz4.NewNative()
+	}
+	return shipped()
+}
+
+func verifNew_zstd(shipped func(...zstd.Option) *zstd.Encoder) Encoder {
+	if VerifZSTDNative {
+		return zstd.NewNative()
+	}
+	return shipped()
+}
+`
+	gen := "pkg/goDB/encoder/zz_verif_build.go"
+	dst = filepath.Join(outDir, strings.ReplaceAll(gen, "/", "__"))
+	if err := os.WriteFile(dst, []byte(factory), 0o644); err != nil {
+		return err
+	}
+	overlay[filepath.Join(spec.Repo, gen)] = dst
+	res.Files = append(res.Files, gen+" (generated)")
+	return nil
+}
+
+// nativeCopy renames the package-level identifiers of a back-end file and removes its build
+// constraint; with dropValues the const and var declarations are removed (they are shared with
+// the original file) together with imports that become unused.
+func nativeCopy(rel string, src []byte, rename map[string]string, dropValues bool) ([]byte, error) {
+	var lines []string
+	for _, l := range strings.Split(string(src), "\n") {
+		if strings.HasPrefix(l, "//go:build") || strings.HasPrefix(l, "// +build") {
+			continue
+		}
+		lines = append(lines, l)
+	}
+	fset := token.NewFileSet()
+	f, err := parser.ParseFile(fset, rel, strings.Join(lines, "\n"), 0)
+	if err != nil {
+		return nil, fmt.Errorf("parse %s: %w", rel, err)
+	}
+	if dropValues {
+		var decls []ast.Decl
+		for _, d := range f.Decls {
+			if gd, ok := d.(*ast.GenDecl); ok && (gd.Tok == token.CONST || gd.Tok == token.VAR) {
+				continue
+			}
+			decls = append(decls, d)
+		}
+		f.Decls = decls
+	}
+	sels := map[*ast.Ident]bool{}
+	used := map[string]bool{}
+	ast.Inspect(f, func(n ast.Node) bool {
+		if se, ok := n.(*ast.SelectorExpr); ok {
+			sels[se.Sel] = true
+			if id, ok := se.X.(*ast.Ident); ok {
+				used[id.Name] = true
+			}
+		}
+		return true
+	})
+	ast.Inspect(f, func(n ast.Node) bool {
+		if id, ok := n.(*ast.Ident); ok && !sels[id] {
+			if to, ok := rename[id.Name]; ok {
+				id.Name = to
+			}
+		}
+		return true
+	})
+	// drop imports that are no longer referenced
+	for _, d := range f.Decls {
+		gd, ok := d.(*ast.GenDecl)
+		if !ok || gd.Tok != token.IMPORT {
+			continue
+		}
+		var specs []ast.Spec
+		for _, s := range gd.Specs {
+			im := s.(*ast.ImportSpec)
+			p, _ := strconv.Unquote(im.Path.Value)
+			name := filepath.Base(p)
+			if name == "v4" {
+				name = filepath.Base(filepath.Dir(p))
+			}
+			if im.Name != nil {
+				name = im.Name.Name
+			}
+			if used[name] {
+				specs = append(specs, s)
+			}
+		}
+		gd.Specs = specs
+	}
+	var buf bytes.Buffer
+	if err := format.Node(&buf, fset, f); err != nil {
+		return nil, fmt.Errorf("print %s: %w", rel, err)
+	}
+	return buf.Bytes(), nil
 }
